@@ -278,6 +278,13 @@ def run_check(prop: str, tier: str, workers: int = 16, only_label: Optional[str]
             agg['violations'] += res['violations']
             if res['samples']:
                 agg['job_samples'].append(res['samples'])
+            if os.environ.get('VERIF_STOP_AT_FIRST_VIOLATION') and res['violations']:
+                # detection runs (tools/run_seeded.py, run_mutants.py) only need to know WHETHER the check alarms: stop at the first job that
+                # reports a violation no known finding covers (the run is then reported as cut short, never as exhaustive)
+                known_sigs = {f.sig for f in load_findings() if f.prop == prop and f.kind == 'finding'}
+                if any(v['sig'] not in known_sigs for v in res['violations']):
+                    cap_hit = True
+                    break
     finally:
         pool.terminate()
         pool.join()
